@@ -3,7 +3,7 @@ import json, os
 
 
 class Program:
-    def __init__(self, facts):
+    def __init__(self, facts, inline=True):
         self.crates = facts
         self.fns, self.consts, self.adts, self.impls, self.traits = {}, {}, {}, [], {}
         self.fn_crate = {}
@@ -23,6 +23,10 @@ class Program:
                 self.impls.append(i)
             for k, v in d["traits"].items():
                 self.traits[k] = v
+        self.inlined = []
+        if inline and self.fns:
+            from .inline import inline_new_helpers
+            self.inlined = inline_new_helpers(self)
 
     def fn(self, key):
         return self.fns.get(key)
